@@ -154,3 +154,10 @@ VARIANTS += [
       "undecided", "", "index arithmetic: no counterexample for n <= 8, "
       "but not a proof"),
 ]
+
+VARIANTS += [
+    V("h-table-logged-with-offset", "moptipyapps/tsp/fea1p1_revn.py",
+      "            log_h(process, h, 0)",
+      "            log_h(process, h, -instance.tour_length_lower_bound)",
+      "fire", "D6.6", "seed C06-h-table-logged-with-offset"),
+]
